@@ -20,6 +20,24 @@ def sh(cmd, **kw):
     return p.returncode, p.stdout
 
 
+def merge_results(rp, results):
+    """read-update-write of the shared results file under a lock, written atomically (several owners run this tool at once)"""
+    import fcntl
+    with open(rp + ".lock", "w") as lk:
+        fcntl.flock(lk, fcntl.LOCK_EX)
+        old = {}
+        if os.path.exists(rp):
+            try:
+                old = json.load(open(rp))
+            except ValueError:
+                old = {}
+        old.update(results)
+        tmp = rp + ".tmp%d" % os.getpid()
+        with open(tmp, "w") as f:
+            json.dump(old, f, indent=1, sort_keys=True)
+        os.replace(tmp, rp)
+
+
 def main():
     args = sys.argv[1:]
     tier = "quick"
@@ -59,12 +77,8 @@ def main():
         finally:
             sh(["git", "-C", "/repo", "worktree", "remove", "--force", wt])
             shutil.rmtree(wt, ignore_errors=True)
-    old = {}
     rp = os.path.join(SEEDED, "RESULTS.json")
-    if os.path.exists(rp):
-        old = json.load(open(rp))
-    old.update(results)
-    json.dump(old, open(rp, "w"), indent=1, sort_keys=True)
+    merge_results(rp, results)
     for sid, r in sorted(results.items()):
         if "error" in r:
             print("%-28s %-4s ERROR %s" % (sid, r["property"], r["error"]))
